@@ -5,13 +5,17 @@ HERE = os.path.dirname(os.path.abspath(__file__))
 ROOT = os.path.dirname(HERE)
 sys.path.insert(0, ROOT)
 NA_REASONS = json.load(open(os.path.join(ROOT, "tools", "not_claimed.json")))
+CLAIMED = set(json.load(open(os.path.join(ROOT, "tools", "claimed.json"))))
 props = [json.loads(l) for l in open(os.path.join(ROOT, "properties.jsonl"))]
 checks, na = [], []
 for p in props:
     pid = p["id"]
     try:
+        if pid not in CLAIMED:
+            raise KeyError(pid)
         m = importlib.import_module("vlib.props." + pid.lower())
         meta = m.META
+        meta["level_text"], meta["level_note"], meta["technique"]
     except Exception:
         na.append({"property_id": pid, "reason": NA_REASONS.get(pid, "check not built yet in this round (see DESIGN.md section 12, status)")})
         continue
